@@ -35,6 +35,15 @@ ABTU_ret_err static inline int
 thread_queue_acquire_spinlock_if_not_empty(thread_queue_t *p_queue,
                                            ABTD_spinlock *p_lock)
 {
+#ifdef ABT_VERIF
+    if (ABTI_VERIF_ON()) {
+        ABTI_VERIF_BEGIN();
+        int verif_empty = ABTD_atomic_acquire_load_int(&p_queue->is_empty);
+        ABTI_VERIF_END(ABTI_VEV_Q_EMPTY, p_queue, 0, verif_empty);
+        if (verif_empty)
+            return 1;
+    }
+#endif
     if (ABTD_atomic_acquire_load_int(&p_queue->is_empty)) {
         /* The pool is empty.  Lock is not taken. */
         return 1;
@@ -57,6 +66,14 @@ thread_queue_acquire_spinlock_if_not_empty(thread_queue_t *p_queue,
 
 static inline ABT_bool thread_queue_is_empty(const thread_queue_t *p_queue)
 {
+#ifdef ABT_VERIF
+    if (ABTI_VERIF_ON()) {
+        ABTI_VERIF_BEGIN();
+        int verif_empty = ABTD_atomic_acquire_load_int(&p_queue->is_empty);
+        ABTI_VERIF_END(ABTI_VEV_Q_EMPTY, p_queue, 1, verif_empty);
+        return verif_empty ? ABT_TRUE : ABT_FALSE;
+    }
+#endif
     return ABTD_atomic_acquire_load_int(&p_queue->is_empty) ? ABT_TRUE
                                                             : ABT_FALSE;
 }
@@ -69,6 +86,7 @@ static inline size_t thread_queue_get_size(const thread_queue_t *p_queue)
 static inline void thread_queue_push_head(thread_queue_t *p_queue,
                                           ABTI_thread *p_thread)
 {
+    ABTI_VERIF_BEGIN(); /* queue update + record are one step (caller holds the pool lock) */
     if (p_queue->num_threads == 0) {
         p_thread->p_prev = p_thread;
         p_thread->p_next = p_thread;
@@ -87,11 +105,13 @@ static inline void thread_queue_push_head(thread_queue_t *p_queue,
         p_queue->num_threads++;
     }
     ABTD_atomic_release_store_int(&p_thread->is_in_pool, 1);
+    ABTI_VERIF_END(ABTI_VEV_Q_PUSH, p_queue, p_thread, 0);
 }
 
 static inline void thread_queue_push_tail(thread_queue_t *p_queue,
                                           ABTI_thread *p_thread)
 {
+    ABTI_VERIF_BEGIN(); /* queue update + record are one step (caller holds the pool lock) */
     if (p_queue->num_threads == 0) {
         p_thread->p_prev = p_thread;
         p_thread->p_next = p_thread;
@@ -110,10 +130,12 @@ static inline void thread_queue_push_tail(thread_queue_t *p_queue,
         p_queue->num_threads++;
     }
     ABTD_atomic_release_store_int(&p_thread->is_in_pool, 1);
+    ABTI_VERIF_END(ABTI_VEV_Q_PUSH, p_queue, p_thread, 1);
 }
 
 static inline ABTI_thread *thread_queue_pop_head(thread_queue_t *p_queue)
 {
+    ABTI_VERIF_BEGIN();
     if (p_queue->num_threads > 0) {
         ABTI_thread *p_thread = p_queue->p_head;
         if (p_queue->num_threads == 1) {
@@ -131,14 +153,17 @@ static inline ABTI_thread *thread_queue_pop_head(thread_queue_t *p_queue)
         p_thread->p_prev = NULL;
         p_thread->p_next = NULL;
         ABTD_atomic_release_store_int(&p_thread->is_in_pool, 0);
+        ABTI_VERIF_END(ABTI_VEV_Q_POP, p_queue, p_thread, 0);
         return p_thread;
     } else {
+        ABTI_VERIF_END(ABTI_VEV_Q_POP, p_queue, 0, 0);
         return NULL;
     }
 }
 
 static inline ABTI_thread *thread_queue_pop_tail(thread_queue_t *p_queue)
 {
+    ABTI_VERIF_BEGIN();
     if (p_queue->num_threads > 0) {
         ABTI_thread *p_thread = p_queue->p_tail;
         if (p_queue->num_threads == 1) {
@@ -156,8 +181,10 @@ static inline ABTI_thread *thread_queue_pop_tail(thread_queue_t *p_queue)
         p_thread->p_prev = NULL;
         p_thread->p_next = NULL;
         ABTD_atomic_release_store_int(&p_thread->is_in_pool, 0);
+        ABTI_VERIF_END(ABTI_VEV_Q_POP, p_queue, p_thread, 1);
         return p_thread;
     } else {
+        ABTI_VERIF_END(ABTI_VEV_Q_POP, p_queue, 0, 1);
         return NULL;
     }
 }
@@ -169,6 +196,7 @@ ABTU_ret_err static inline int thread_queue_remove(thread_queue_t *p_queue,
     ABTI_CHECK_TRUE(ABTD_atomic_acquire_load_int(&p_thread->is_in_pool) == 1,
                     ABT_ERR_POOL);
 
+    ABTI_VERIF_BEGIN();
     if (p_queue->num_threads == 1) {
         p_queue->p_head = NULL;
         p_queue->p_tail = NULL;
@@ -187,6 +215,7 @@ ABTU_ret_err static inline int thread_queue_remove(thread_queue_t *p_queue,
     ABTD_atomic_release_store_int(&p_thread->is_in_pool, 0);
     p_thread->p_prev = NULL;
     p_thread->p_next = NULL;
+    ABTI_VERIF_END(ABTI_VEV_Q_REMOVE, p_queue, p_thread, 0);
     return ABT_SUCCESS;
 }
 
